@@ -23,15 +23,19 @@ def pkg_cases(draw, max_classes: int = 7, leaf_only_instance_attrs: bool = False
     # how classes become subscriptable: not at all / own __class_getitem__ / typing.Generic[T] as a base
     gen_mode = draw(st.sampled_from(("", "", "cgi", "typing"))) if hist_kind != "replace" else ""
     # classes defined inside the next class
-    nest = [False] * n
+    # nesting depth per class in post-order numbering (classes of a body precede their host): up to 2 levels
+    depth = [0] * n
     if hist_kind != "replace" and draw(st.integers(0, 1)):
-        nest = [draw(st.integers(0, 2)) == 0 for _ in range(n)]
-        nest[-1] = False
-    shell = {"bases": [[] for _ in range(n)], "nest": nest}
+        prev = None
+        for i in range(n):
+            lo = 0 if prev is None else max(0, prev - 1)
+            hi = min(2, n - 1 - i)
+            depth[i] = prev = draw(st.sampled_from([d for d in (0, 0, 1, 1, 2) if lo <= d <= hi] or [lo]))
+    shell = {"bases": [[] for _ in range(n)], "depth": depth}
     host = H.hosts(shell)
     for j, h in enumerate(host):
         if h is not None:
-            mods[j] = mods[h]  # a nested class lives in its host's module (blocks are contiguous: still non-decreasing)
+            mods[j] = mods[H.chain(host, j)[0]]  # a nested class lives in its module-level host's module (trees are contiguous: still non-decreasing)
     dense = {m: k for k, m in enumerate(sorted(set(mods)))}
     mods = [dense[m] for m in mods]
     # wildcard forms: only when the loader expands them, and never in a package whose imports are cyclic
@@ -57,12 +61,14 @@ def pkg_cases(draw, max_classes: int = 7, leaf_only_instance_attrs: bool = False
     # no wildcard form across distributions: with repeated names `from m2 import *` + `class C0(C0)` is the documented
     # same-name limitation, and in a "late" history wildcard expansion is the loader's business
     cross_forms = [f for f in H.FORMS_CROSS if f != "w" or (resolve and not cyclic and not layout)]
+    dups = draw(st.integers(0, 3)) == 0  # a quarter of the cases may repeat a base
     cgi = [gen_mode == "cgi" and draw(st.integers(0, 2)) == 0 for _ in range(n)]
     bases: list[list] = []
     via: list[list[str]] = []
     for i in range(n):
         # a host cannot derive from the classes of its own body (they do not exist yet when its bases are evaluated)
-        pool: list = [j for j in range(i) if host[j] != i]
+        # ... and from inside a class body only the classes of that body and finished module-level trees can be named
+        pool: list = [j for j in range(i) if H.referable(host, j, i)]
         # dense hierarchies: prefer 2-3 bases once they are available
         size = draw(st.sampled_from((0, 1, 1, 1, 2, 2, 2, 3))) if pool else 0
         size = min(size, len(pool))
@@ -75,8 +81,13 @@ def pkg_cases(draw, max_classes: int = 7, leaf_only_instance_attrs: bool = False
         if cyclic and len(bs) < 3 and draw(st.integers(0, 2)) == 0:
             back = draw(st.integers(i, n - 1))
             # never the class in whose body this one is defined: no statement order makes that valid Python
-            if back not in bs and back != host[i]:
+            if back not in bs and (back == i or host[back] == host[i] or H.chain(host, back)[0] != H.chain(host, i)[0]):
                 bs.insert(draw(st.integers(0, len(bs))), back)
+        # now and then the same class twice (CPython: "duplicate base class"), the repetition reached its own way
+        ints = [b for b in bs if isinstance(b, int)]
+        if dups and ints and len(bs) < 3 and draw(st.integers(0, 3)) == 0:
+            dup = draw(st.sampled_from(ints))
+            bs.insert(draw(st.integers(bs.index(dup) + 1, len(bs))), dup)
         forms = []
         for b in bs:
             if isinstance(b, str):
@@ -99,6 +110,8 @@ def pkg_cases(draw, max_classes: int = 7, leaf_only_instance_attrs: bool = False
                     ok = cgi[b] or any(cgi[a] for a in anc[b])
                 elif gen_mode == "typing":
                     ok = "Generic[T]" in bases[b]
+            if gen_mode == "typing" and bases[i].count(b) > 1:
+                ok = False  # `class C(A[int], A)` is one base for typing's __mro_entries__: keep repetitions plain
             row.append(bool(ok and draw(st.integers(0, 2))))
         sub.append(row)
     # one fixed-size draw (uniform bits; st.integers would be heavily skewed towards 0 = no members at all)
@@ -107,8 +120,8 @@ def pkg_cases(draw, max_classes: int = 7, leaf_only_instance_attrs: bool = False
     spread = sum(((ibits >> (8 * i)) & 31) << (5 * i) for i in range(n))
     init = H.init_from_bits(spread, members, bases, leaf_only=leaf_only_instance_attrs)
     case = {"kind": "pkg", "bases": bases, "members": members, "mods": mods, "via": via, "resolve": resolve, "init": init}
-    if any(nest):
-        case["nest"] = nest
+    if any(depth):
+        case["depth"] = depth
     if any(cgi):
         case["cgi"] = cgi
     if any(any(r) for r in sub):
@@ -129,6 +142,19 @@ def pkg_cases(draw, max_classes: int = 7, leaf_only_instance_attrs: bool = False
                     names[i] = names[draw(st.sampled_from(preferred))]
             if names != [f"C{i}" for i in range(n)]:
                 case["clsnames"] = names
+    if any(depth):
+        # a nested class may repeat the name of a class that encloses it (`class Node: class Meta: class Node: ...`);
+        # siblings then reach it by that bare name, everybody else through the dotted path from module level
+        names = list(case.get("clsnames") or [f"C{i}" for i in range(n)])
+        changed = False
+        for i in range(n):
+            if host[i] is None or draw(st.integers(0, 2)):
+                continue
+            new = names[draw(st.sampled_from(H.chain(host, i)[:-1]))]
+            if all(names[k] != new for k in range(n) if k != i and host[k] == host[i]):
+                names[i], changed = new, True
+        if changed:
+            case["clsnames"] = names
     if hist_kind == "late":
         case["history"] = {"type": "late"}
     elif hist_kind == "replace":
